@@ -5,7 +5,7 @@
     fixes/C07-*.diff applied); every [= Ok ...] below says: no read outside the message mapping, no
     store outside a staging buffer (no [Crash]) and termination (no [OutOfFuel]). *)
 From Qv Require Import Common.Bytes Gen.GenQrdata Model.Mime Model.QrData Spec.SmtpDataSpec
-  Proofs.QrNeedRecodeProofs Proofs.QrPlainSpecProofs.
+  Proofs.QrNeedRecodeProofs Proofs.QrPlainSpecProofs Proofs.QrQpDecodeProofs Proofs.QrQpLegalProofs Proofs.QrQpTopProofs.
 
 (** need_recode() decides exactly what the property needs: the message goes the recoding way iff it has
     an octet that is NUL or above 127 while 8BITMIME was not announced, or a line of more than 998 octets
@@ -31,6 +31,22 @@ Proof.
   apply plain_data_legal. exact H.
 Qed.
 Print Assumptions C06_plain.
+
+(** recode_qp(), the quoted-printable recoder, on any window (body or MIME part) of any message made of
+    octets: it terminates, reads nothing outside the window, stays inside sendbuf[1280], and what it
+    writes — with the CRLF the terminator adds when the last line is open — is legal SMTP data that is
+    7 bit whatever the server announced: CRLF lines without other CR/LF, no lone dot, no line over the
+    limit (in fact at most 76 octets plus the transparency dot: the strict receiver accepts it). *)
+Theorem C06_qp_body : forall (m : bytes) (b len : nat),
+  b + len <= length m -> Forall (fun c => (c < 256)%N) m ->
+  exists st', recode_qp m b len (mkSt [] true) = Ok st' /\
+    let wire := concat (rev (out st')) ++ (if lastlf st' then [] else CRLF) in
+    legal_data false wire /\ exists d, qp_decode 0 true wire = Some d.
+Proof.
+  intros m b len H1 H2. destruct (recode_qp_correct m b len H1 H2) as (st' & E & (d & Hd & _) & HL).
+  exists st'. split; [exact E|]. split; [exact HL|]. exists d. exact Hd.
+Qed.
+Print Assumptions C06_qp_body.
 
 (** the boolean checker that judges every C output accepts only legal data *)
 Theorem C06_checker_sound : forall (ext8 : bool) (d : bytes), legal_data_b ext8 d = true -> legal_data ext8 d.
